@@ -164,7 +164,7 @@ func genCSG(t *rapid.T) csgCase {
 	c.Delta = gen.LogF(t, 0.07, 0.45, "delta")
 	c.API = rapid.SampledFrom([]string{"mc", "search", "interior", "filter", "searchfilter", "c2f", "conj"}).Draw(t, "api")
 	if c.API != "mc" && c.API != "filter" {
-		c.Iters = rapid.IntRange(0, 6).Draw(t, "iters")
+		c.Iters = genIters(t)
 	}
 	if c.API == "c2f" {
 		// coarse-to-fine requires that the coarse pass sees every feature: unions of balls of radius >= 2.5 coarse spacings
@@ -811,7 +811,7 @@ func TestProp(t *testing.T) {
 		kit.Clause[latCase]{Name: "C01/mc/random-lattice", Quick: 1500, Thorough: 40000, Gen: func(t *rapid.T) latCase {
 			c := latCase{L: gen.Lattice3Gen(t, 6, "lattice"), API: rapid.SampledFrom(apis).Draw(t, "api")}
 			if c.API != "mc" && c.API != "filter" {
-				c.Iters = rapid.IntRange(0, 6).Draw(t, "iters")
+				c.Iters = genIters(t)
 			}
 			return c
 		}, Check: checkLat3, Fresh: true},
@@ -825,7 +825,7 @@ func TestProp(t *testing.T) {
 		kit.Clause[lat2Case]{Name: "C01/ms/random-lattice", Quick: 2000, Thorough: 50000, Gen: func(t *rapid.T) lat2Case {
 			c := lat2Case{L: gen.Lattice2Gen(t, 9, "lattice"), API: rapid.SampledFrom([]string{"ms", "search", "filter", "searchfilter"}).Draw(t, "api")}
 			if c.API != "ms" && c.API != "filter" {
-				c.Iters = rapid.IntRange(0, 6).Draw(t, "iters")
+				c.Iters = genIters(t)
 			}
 			return c
 		}, Check: checkLat2, Fresh: true},
@@ -833,7 +833,7 @@ func TestProp(t *testing.T) {
 			c := csg2Case{Tree: gen.Node2Gen(t, 3, 8, "tree"), Delta: gen.LogF(t, 0.03, 0.4, "delta")}
 			c.API = rapid.SampledFrom([]string{"ms", "search", "filter", "searchfilter", "c2f", "conj"}).Draw(t, "api")
 			if c.API != "ms" && c.API != "filter" {
-				c.Iters = rapid.IntRange(0, 6).Draw(t, "iters")
+				c.Iters = genIters(t)
 			}
 			c.Big = c.Delta * gen.F(t, 1, 3, "bigfactor")
 			c.Angle = gen.F(t, -4, 4, "angle")
@@ -863,4 +863,12 @@ func TestProp(t *testing.T) {
 		kit.Clause[rectSetCase]{Name: "C01/gen/rectset", Quick: 6000, Thorough: 120000, Gen: genRectSet, Check: checkRectSet},
 		kit.Clause[hmCase]{Name: "C01/gen/heightmap", Quick: 600, Thorough: 15000, Gen: genHM, Check: checkHM},
 	)
+}
+
+// genIters: the number of bisection steps; mostly small, sometimes the values applications use (8, 16) and beyond.
+func genIters(t *rapid.T) int {
+	if rapid.IntRange(0, 5).Draw(t, "iters-large") == 0 {
+		return rapid.SampledFrom([]int{8, 12, 16, 24, 32}).Draw(t, "iters")
+	}
+	return rapid.IntRange(0, 6).Draw(t, "iters")
 }
